@@ -82,4 +82,7 @@ contract("nop::FdWriter::Write(unsigned char)", [
     "ensures (OLD(vt_fd.fail_at) != FD_EFF && OLD(vt_fd.wpos) < vt_fd.cap) ==> (ERR(RET) == 0 && vt_fd.wpos == OLD(vt_fd.wpos) + 1 && vt_fd.dst[OLD(vt_fd.wpos)] == byte)",
     "ensures (OLD(vt_fd.fail_at) != FD_EFF && OLD(vt_fd.wpos) >= vt_fd.cap) ==> ERR(RET) == E_WriteLimitReached",
     "ensures OLD(vt_fd.fail_at) == FD_EFF ==> ERR(RET) == E_IOError"], "fd_write1", "C17", "  unwind 4 complete the model interrupts at most one call\n")
+# (A modular contract for FdReader::Read(begin, end) — byte primitive replaced by its contract plus a loop contract on the
+# byte loop — exhausted memory in the SAT back end even with a 48-byte source; the block transfers stay covered by the
+# lock-step conformance lemma and the codec round-trip / truncation jobs.)
 print("\n".join(out))
